@@ -1065,6 +1065,10 @@ impl Server {
             let result = self.connections.with_connection(*id, |conn| -> Result<bool> {
                 match conn.flush() {
                     Ok(_) => Ok(conn.has_pending_writes()),
+                    // The client has not drained its socket yet: the rest of the replies stays
+                    // buffered and is tried again on the next pass. Dropping the connection here
+                    // loses replies the client is still entitled to.
+                    Err(FerrousError::Connection(ref msg)) if msg.contains("would block") => Ok(true),
                     Err(e) if matches!(e, FerrousError::Connection(_)) => {
                         // Connection error - mark for closing
                         conn.state = ConnectionState::Closing;
